@@ -20,6 +20,7 @@ from harness.lib import common, cppdrv, embref, viewcorr
 
 PROP = "C01"
 KEY_DYN = "monotone:fixed-size-type-in-dynamically-sized-field"
+KEY_ARG = "constants:size-above-max-size:argument-outside-parameter-range"
 
 
 def dyn_sized_fixed_fields(prepared):
@@ -109,9 +110,11 @@ def _check_case_outputs(chk, case, sweep, answers, stats):
         stats["constants_checked"] += 1
         if cbad:
             stats["constants_violations"] += 1
+            only_above_max = all("> MaxSize" in b for b in cbad)
             chk.violation("input", {"module": case.text, "case": case.name, "command": cmd, "observed": ans,
                                     "expected": "Min/MaxSizeIn… are constants and bracket the reported size",
-                                    "differences": cbad[:8]})
+                                    "differences": cbad[:8]},
+                          key=KEY_ARG if only_above_max and viewcorr.param_range_escapes(case.prepared) else None)
         # (2) reference semantics
         ref = viewcorr.reference_obs(case, si, pv, data)
         if ref is not None:
@@ -166,6 +169,9 @@ def _run(chk, tier, model_ok):
         if rr.kind == "ok" and len(out) == 2 and \
                 cppdrv.monotone_violations(cppdrv.parse_obs(out[0]), cppdrv.parse_obs(out[1])):
             chk.report_known(k)
+        elif rr.kind == "ok" and len(out) == 1 and json.loads(k["input"]).get("expect") == "size-above-max":
+            if any("> MaxSize" in b for b in constants_violations(cppdrv.parse_obs(out[0]), ("pinned",), {})):
+                chk.report_known(k)
         elif rr.kind == "ok" and len(out) == 1 and json.loads(k["input"]).get("expect_ok_field"):
             t = cppdrv.parse_obs(out[0])
             if any(n == json.loads(k["input"])["expect_ok_field"] and o.get("ok") for n, _h, o in t["fields"]):
